@@ -46,6 +46,12 @@ pub enum Style {
     LowerT,
     /// lower-case 'z' for offset zero
     LowerZ,
+    /// space separator with "Z" (the 20-byte whole-second layout with a non-'T' separator)
+    SpaceZ,
+    /// lower-case 't' with "Z"
+    LowerTZ,
+    /// lower-case 't' and 'z'
+    LowerTLowerZ,
 }
 
 impl Style {
@@ -62,8 +68,8 @@ pub fn render(t: i64, nanos: u32, off_min: i32, frac: usize, style: Style) -> St
     let (y, m, d) = civil_from_days(days);
     let (hh, mm, ss) = (sod / 3600, sod % 3600 / 60, sod % 60);
     let sep = match style {
-        Style::Space => ' ',
-        Style::LowerT => 't',
+        Style::Space | Style::SpaceZ => ' ',
+        Style::LowerT | Style::LowerTZ | Style::LowerTLowerZ => 't',
         _ => 'T',
     };
     let mut s = format!("{:04}-{:02}-{:02}{}{:02}:{:02}:{:02}", y, m, d, sep, hh, mm, ss);
@@ -73,8 +79,8 @@ pub fn render(t: i64, nanos: u32, off_min: i32, frac: usize, style: Style) -> St
         s.push_str(&f[..frac]);
     }
     match (style, off_min) {
-        (Style::StrictZ, 0) => s.push('Z'),
-        (Style::LowerZ, 0) => s.push('z'),
+        (Style::StrictZ | Style::SpaceZ | Style::LowerTZ, 0) => s.push('Z'),
+        (Style::LowerZ | Style::LowerTLowerZ, 0) => s.push('z'),
         (Style::MinusZero, 0) => s.push_str("-00:00"),
         _ => {
             let a = off_min.abs();
@@ -258,14 +264,21 @@ fn sigval(e: &Val, n: &Val) -> String {
 }
 
 pub fn non_timestamps() -> Vec<Value> {
-    vec![
+    let mut v = vec![
         json!(0), json!(1), json!(12345), json!(-1), json!(99999999999u64), json!(253402300799u64), json!(1.5), json!(true), json!(false), json!([]), json!(["2999-01-01T00:00:00Z"]),
         json!({}), json!({"exp": "2999-01-01T00:00:00Z"}), json!(""), json!(" "), json!("never"), json!("tomorrow"), json!("2999"), json!("2999-01-01"), json!("2999-01-01T00:00:00"),
         json!("2999-01-01T00:00Z"), json!("2999-13-01T00:00:00Z"), json!("2999-02-30T00:00:00Z"), json!("2999-01-01T25:00:00Z"), json!("2999-01-01T00:61:00Z"), json!("29990101T000000Z"),
         json!("2999-01-01T00:00:00+0000"), json!("2999-01-01T00:00:00 UTC"), json!("2999-01-01T00:00:00Z trailing"), json!(" 2999-01-01T00:00:00Z"), json!("Mon, 01 Jan 2999 00:00:00 GMT"),
         json!("32503680000"), json!("null"), json!("true"), json!("\u{0}"), json!("2999-01-01T00:00:00+24:00"), json!("2999-01-01T00:00:00.Z"), json!("+2999-01-01T00:00:00Z"),
         json!("2999-1-1T0:0:0Z"), json!("２９９９-01-01T00:00:00Z"),
-    ]
+        json!("2999-02-29T00:00:00Z"), json!("2999-04-31T00:00:00Z"), json!("2999-00-10T00:00:00Z"), json!("2999-01-00T00:00:00Z"), json!("2999-01-01T24:00:00Z"), json!("2999-01-01T00:00:61Z"),
+        json!("2999-01-01T00:00:00+00"), json!("2999-001T00:00:00Z"), json!("2999-W01-1T00:00:00Z"), json!("2999-01-01T00:00:00,5Z"), json!("2999-01-01T00:00.5Z"), json!("+002999-01-01T00:00:00Z"),
+        json!("2999-01-01T00:00:00+25:00"), json!("2999-01-01T00:00:00+00:60"),
+    ];
+    // every near-miss once more in the PAST (2001 is not a leap year either): nbf accepts what sorts before now
+    let past: Vec<Value> = v.iter().filter_map(|x| x.as_str()).filter(|s| s.contains("2999")).map(|s| json!(s.replace("2999", "2001"))).collect();
+    v.extend(past);
+    v
 }
 
 fn instants() -> Vec<(When, bool /*past*/)> {
@@ -321,7 +334,7 @@ pub fn build_cases(prop: &str, tier: &str, seed: u64, pools: &Pools) -> Vec<Case
             }
             // zero-offset spellings and lenient variants
             for frac in 0..=9usize {
-                for style in [Style::StrictZ, Style::MinusZero, Style::Space, Style::LowerT, Style::LowerZ] {
+                for style in [Style::StrictZ, Style::MinusZero, Style::Space, Style::LowerT, Style::LowerZ, Style::SpaceZ, Style::LowerTZ, Style::LowerTLowerZ] {
                     let nanos = (rng.next() % 1_000_000_000) as u32;
                     let class = match (style.strict(), past) {
                         (true, true) => "strict-past",
@@ -331,7 +344,7 @@ pub fn build_cases(prop: &str, tier: &str, seed: u64, pools: &Pools) -> Vec<Case
                     };
                     cases.push(mk(p, Val::Time { when: when.clone(), nanos, off_min: 0, frac, style }, class, Val::Absent));
                     // lenient separators with non-zero offsets too
-                    if !style.strict() && style != Style::LowerZ {
+                    if matches!(style, Style::Space | Style::LowerT) {
                         for off in [-1439, -720, -1, 1, 330, 1439] {
                             cases.push(mk(p, Val::Time { when: when.clone(), nanos, off_min: off, frac, style }, class, Val::Absent));
                         }
@@ -341,7 +354,7 @@ pub fn build_cases(prop: &str, tier: &str, seed: u64, pools: &Pools) -> Vec<Case
         }
     }
     // sampled renderings on the other protocols
-    let nsample = if thorough { 60_000 } else { 300 };
+    let nsample = if thorough { 60_000 } else { 500 };
     for &p in &ALL {
         if full.contains(&p) {
             continue;
@@ -349,8 +362,8 @@ pub fn build_cases(prop: &str, tier: &str, seed: u64, pools: &Pools) -> Vec<Case
         let ins = instants();
         for k in 0..nsample {
             let (when, past) = ins[k % ins.len()].clone();
-            let style = *rng.pick(&[Style::Strict, Style::Strict, Style::Strict, Style::StrictZ, Style::MinusZero, Style::Space, Style::LowerT, Style::LowerZ]);
-            let off = if matches!(style, Style::StrictZ | Style::MinusZero | Style::LowerZ) { 0 } else { rng.below(2879) as i32 - 1439 };
+            let style = *rng.pick(&[Style::Strict, Style::Strict, Style::Strict, Style::StrictZ, Style::MinusZero, Style::Space, Style::LowerT, Style::LowerZ, Style::SpaceZ, Style::LowerTZ, Style::LowerTLowerZ]);
+            let off = if matches!(style, Style::StrictZ | Style::MinusZero | Style::LowerZ | Style::SpaceZ | Style::LowerTZ | Style::LowerTLowerZ) { 0 } else { rng.below(2879) as i32 - 1439 };
             let class = match (style.strict(), past) {
                 (true, true) => "strict-past",
                 (true, false) => "strict-future",
@@ -470,6 +483,33 @@ fn virtual_clock(prop: &str, tier: &str, seed: u64, pools: &Pools) -> Report {
     ];
     let offsets: [i32; 9] = [0, -1439, -720, -1, 1, 330, 765, 1439, -300];
     let protos: Vec<P> = if thorough { ALL.to_vec() } else { vec![P::V4L, P::V2L, P::V4P, P::V3L] };
+    // Is the hook on the validators' path at all?  A claim 10 years ahead of the REAL clock is judged once on the real
+    // clock and once with the virtual clock 40 years ahead: the two verdicts must differ.  If they do not, either the
+    // validators no longer consult the hooked time source (a refactoring: the sweep below would then judge real-clock
+    // answers against virtual instants and raise false alarms) or they ignore the clock altogether (which the real-clock
+    // workloads report as a violation on their own).  Either way the sweep is skipped as inconclusive, never a violation.
+    {
+        let real = util::now_unix_nanos();
+        let claim_t = real + 315_360_000 * 1_000_000_000i128;
+        let text = render((claim_t / 1_000_000_000) as i64, 0, 0, 9, Style::StrictZ);
+        let payload = if is_exp { json!({"exp": text}) } else { json!({"nbf": text}) }.to_string();
+        let key = pools.key(P::V4L, 0);
+        let mut probe = Report::new();
+        if let Out::Ok(token) = core_seal(P::V4L, &key, &[7u8; 32], &payload, None, None).0 {
+            let cfg = ParserCfg { default_parser: true, ..Default::default() };
+            let a = batteries_open(P::V4L, &key, &token, &cfg).0.is_ok();
+            rusty_paseto::verif::set_now(Some(real + 4 * 315_360_000 * 1_000_000_000i128));
+            let b = batteries_open(P::V4L, &key, &token, &cfg).0.is_ok();
+            rusty_paseto::verif::set_now(None);
+            if a == b {
+                probe.inconclusive.push(format!("virtual-clock hook not reached by the default {} validator (verdict on a claim 10 y ahead is {} on the real clock and with the virtual clock 40 y ahead): virtual-clock sweep skipped", if is_exp { "exp" } else { "nbf" }, if a { "accept" } else { "reject" }));
+                return probe;
+            }
+        } else {
+            probe.inconclusive.push("virtual-clock probe token could not be built".into());
+            return probe;
+        }
+    }
     let r = parallel(nows.len(), util::threads(), |i, r| {
         let v = nows[i];
         let p = protos[i % protos.len()];
@@ -553,7 +593,14 @@ fn clock_progress(prop: &str, pools: &Pools) -> Report {
     std::thread::scope(|s| {
         let mut handles = Vec::new();
         for &p in &ALL {
-            for (batteries_new, name) in [(false, "same parser object"), (true, "fresh parser per parse")] {
+            // "rejected parse before the pause": a clock reading cached by a failing parse (and released only by a successful
+            // one) must not be what the parse after the pause is judged against
+            for (batteries_new, name, reject_before_pause) in [
+                (false, "same parser object", false),
+                (true, "fresh parser per parse", false),
+                (false, "same parser object, a rejected parse just before the pause", true),
+                (true, "fresh parser per parse, a rejected parse just before the pause", true),
+            ] {
                 let key = pools.key(p, 0);
                 handles.push(s.spawn(move || {
                     let mut r = Report::new();
@@ -570,16 +617,38 @@ fn clock_progress(prop: &str, pools: &Pools) -> Report {
                         }
                     };
                     let cfg = ParserCfg { default_parser: true, ..Default::default() };
+                    // a token that the time validator refuses today and for the next hour
+                    let far = if is_exp { now_ns - 3_600_000_000_000 } else { now_ns + 3_600_000_000_000 };
+                    let far_text = render((far / 1_000_000_000) as i64, 0, 0, 0, Style::StrictZ);
+                    let far_payload = if is_exp { json!({"exp": far_text, "n": 2}) } else { json!({"nbf": far_text, "n": 2}) }.to_string();
+                    let refused = match core_seal(p, &key, &rng.bytes(32), &far_payload, None, None).0 {
+                        Out::Ok(t) => t,
+                        _ => {
+                            r.inconclusive.push(format!("clock-progress: could not seal for {}", p.name()));
+                            return r;
+                        }
+                    };
                     let (first, second) = if !batteries_new {
-                        let steps = vec![PStep::Parse { token: token.clone(), key: 0 }, PStep::SleepMs(2600), PStep::Parse { token: token.clone(), key: 0 }];
+                        let mut steps = vec![PStep::Parse { token: token.clone(), key: 0 }];
+                        if reject_before_pause {
+                            steps.push(PStep::Parse { token: refused.clone(), key: 0 });
+                        }
+                        steps.push(PStep::SleepMs(2600));
+                        steps.push(PStep::Parse { token: token.clone(), key: 0 });
                         let outs = session(p, true, &[key.clone()], &cfg, &steps);
-                        if outs.len() != 2 {
+                        if outs.len() != steps.len() - 1 {
                             r.inconclusive.push(format!("clock-progress session on {} returned {} outcomes", p.name(), outs.len()));
                             return r;
                         }
-                        (outs[0].clone(), outs[1].clone())
+                        if reject_before_pause && outs[1].is_ok() {
+                            r.see("clock-progress: the token meant to be refused before the pause was accepted (judged by the other workloads)", p.name());
+                        }
+                        (outs[0].clone(), outs[outs.len() - 1].clone())
                     } else {
                         let a = batteries_open(p, &key, &token, &cfg).0;
+                        if reject_before_pause {
+                            let _ = batteries_open(p, &key, &refused, &cfg).0;
+                        }
                         std::thread::sleep(std::time::Duration::from_millis(2600));
                         (a, batteries_open(p, &key, &token, &cfg).0)
                     };
@@ -632,4 +701,4 @@ pub fn replay(prop: &str, case: &Value) -> Report {
     r
 }
 
-pub const RULE: &str = "payloads {\"exp\"|\"nbf\": value} are crafted at the core layer and parsed with PasetoParser::default(). Values: 21 instants (now-2s, -1min, -1h, -1d, -1y, 2000-01-01, 1971; now+60s, +1h, +1d, +1y, 2999, 9000-01-01, and now + {2^31, 2^32 seconds, 2^63 ns -/+ 1 min, 475 y, 2^64 ns, 3170 y}) rendered by the harness's own calendar arithmetic with EVERY UTC offset -23:59..+23:59 x 0..9 fractional digits (strict grammar), 'Z', '-00:00' and lenient variants (space, 't', 'z') — full space on v4.local (thorough: all four local protocols and v2/v4 public), 300 (thorough 60000) sampled renderings on each other protocol; a catalogue of 40 non-timestamp values (numbers, booleans, arrays, objects, empty string, near-miss date strings) plus random text; null; absent; a sample of the strict cases and the grid once more with check_claim(<the token's own value>) registered on the default parser (the time check must still apply); C12 additionally the 3x3 grid of (exp, nbf) in {past, future, absent} x 3 offsets. Plus a VIRTUAL-CLOCK sweep through the hook verif::set_now: 225 (thorough 3025) values of 'now' (year/leap-day boundaries, 2^31/2^32 s, the i64-nanosecond limit 2262-04-11, up to year 8999, random, odd sub-second parts) x 27 distances from +-1 ns to +-950 years x sampled offsets, all with 9 fraction digits: exp accepted iff instant > now, nbf accepted iff instant < now (== now not decided). Plus clock-progress histories on all 8 protocols: a claim 1.5 s in the future is parsed, 2.6 s pass, and the SAME parser object (and a fresh one) must now give the opposite answer. Oracle: instant known by construction; strict renderings decide both ways, lenient renderings must merely never be accepted when out of window. distinct_nontrivial = distinct (protocol, outcome, class, instant, offset, fraction length, style) tuples";
+pub const RULE: &str = "payloads {\"exp\"|\"nbf\": value} are crafted at the core layer and parsed with PasetoParser::default(). Values: 21 instants (now-2s, -1min, -1h, -1d, -1y, 2000-01-01, 1971; now+60s, +1h, +1d, +1y, 2999, 9000-01-01, and now + {2^31, 2^32 seconds, 2^63 ns -/+ 1 min, 475 y, 2^64 ns, 3170 y}) rendered by the harness's own calendar arithmetic with EVERY UTC offset -23:59..+23:59 x 0..9 fractional digits (strict grammar), 'Z', '-00:00' and lenient variants (space / 't' separators and 'z', each also combined with 'Z') — full space on v4.local (thorough: all four local protocols and v2/v4 public), 500 (thorough 60000) sampled renderings on each other protocol; a catalogue of ~90 non-timestamp values (numbers, booleans, arrays, objects, empty string, near-miss date strings — impossible months/days/hours, ISO 8601 forms that RFC 3339 excludes — each in the future (2999) and in the past (2001)) plus random text; null; absent; a sample of the strict cases and the grid once more with check_claim(<the token's own value>) registered on the default parser (the time check must still apply); C12 additionally the 3x3 grid of (exp, nbf) in {past, future, absent} x 3 offsets. Plus a VIRTUAL-CLOCK sweep through the hook verif::set_now: 225 (thorough 3025) values of 'now' (year/leap-day boundaries, 2^31/2^32 s, the i64-nanosecond limit 2262-04-11, up to year 8999, random, odd sub-second parts) x 27 distances from +-1 ns to +-950 years x sampled offsets, all with 9 fraction digits: exp accepted iff instant > now, nbf accepted iff instant < now (== now not decided). Plus clock-progress histories on all 8 protocols: a claim 1.5 s in the future is parsed, 2.6 s pass, and the SAME parser object (and a fresh one) must now give the opposite answer — also when the last parse before the pause was a REFUSED one (a clock reading kept from a failing parse must not judge the next). Oracle: instant known by construction; strict renderings decide both ways, lenient renderings must merely never be accepted when out of window. distinct_nontrivial = distinct (protocol, outcome, class, instant, offset, fraction length, style) tuples";
